@@ -149,6 +149,11 @@ func searchIndex(p *binary.BinaryProtocol, idx int, elementWireType proto.WireTy
 	} else {
 		// the cursor is on element 0; after skipping an element, exists tells whether another one follows
 		exists := true
+		if idx == 0 {
+			// the caller has consumed the tag of element 0, whereas every other index leaves the cursor ON the
+			// tag of the element found (the returned offset is behind the tag in both cases): step back onto the tag
+			p.Read -= protowire.SizeVarint(uint64(fieldNumber)<<3 | uint64(elementWireType))
+		}
 		// normal Type : [tag][(length)][value][tag][(length)][value][tag][(length)][value]....
 		for p.Read < len(p.Buf) && cnt < idx {
 			// don't move p.Read and judge whether readList completely
